@@ -136,6 +136,25 @@ Proof.
   - intros [Hin [H1 H2]]. split; [exact Hin|]. apply andb_true_intro. split; apply negb_true_iff; apply String.eqb_neq; assumption.
 Qed.
 
+(* every lifetime argument of the counterpart path that can be a parameter is declared on the impl; 'static and '_ never are
+   (unless the deriving type itself declares them, which rustc rejects at the type) *)
+Theorem counterpart_lifetimes_declared : forall gens l lt,
+    In lt l -> lt <> "static" -> lt <> "_" -> In lt (lt_names (add_missing_lts gens (declarable_lts l))).
+Proof. intros gens l lt Hin H1 H2. apply missing_lifetimes_declared. apply declarable_spec. repeat split; assumption. Qed.
+
+(* conversely, 'static / '_ are declared only if the deriving type's own parameter list names them *)
+Theorem static_never_added : forall gens l lt,
+    (lt = "static" \/ lt = "_") -> In lt (lt_names (add_missing_lts gens (declarable_lts l))) -> In lt (lt_names gens).
+Proof.
+  intros gens l lt Hs. generalize (declarable_lts l) (fun x => proj1 (declarable_spec l x)). intros dl Hdl. revert gens.
+  induction dl as [|x r IH]; intros gens Hin; [exact Hin|].
+  rewrite add_missing_step in Hin.
+  assert (Hx : x <> lt). { destruct (Hdl x (or_introl eq_refl)) as [_ [H1 H2]]. destruct Hs; subst lt; auto. }
+  apply IH in Hin; [|intros y Hy; apply Hdl; right; exact Hy].
+  destruct (negb (str_in x (lt_names gens))); [|exact Hin].
+  rewrite lt_names_push in Hin by reflexivity. apply in_app_or in Hin. destruct Hin as [Hin|[Heq|[]]]; [exact Hin | cbn in Heq; contradiction].
+Qed.
+
 Example lifetimes_example :
   lt_names (add_missing_lts [mk_lt "a"] ["c"; "c"; "a"]%string) = ["a"; "c"]%string.
 Proof. reflexivity. Qed.
